@@ -22,12 +22,14 @@ PROP = "C16"
 _TMP = None
 
 CONVERTERS = [
-    lambda: Converter([Record(prefix="a", uri_prefix="http://x/", prefix_synonyms=["A1"], uri_prefix_synonyms=["http://y/"]), Record(prefix="b", uri_prefix="http://z/")]),
+    lambda: Converter([Record(prefix="a", uri_prefix="http://x/", prefix_synonyms=["A1"], uri_prefix_synonyms=["http://y/"]),
+                       Record(prefix="b", uri_prefix="http://z/", uri_prefix_synonyms=["a:q/"]),        # 'a:q/7' is a URI of b and a CURIE of a
+                       Record(prefix="c", uri_prefix="http://c/", uri_prefix_synonyms=["http://x/C_"])]),  # nested inside a's URI prefix
     lambda: Converter([Record(prefix="a", uri_prefix="http://x/", prefix_synonyms=["A1"], uri_prefix_synonyms=["http://y/"]), Record(prefix="", uri_prefix="http://d/")], delimiter="/"),
 ]
 
-CELLS = ["http://x/1", "http://y/2", "a:1", "A1:2", "http://q/1", "zz:1", "nodelim", "", "http://x/\t1", 'a:"q"', "http://x/1\n2", "a:1\r2", "\ufeffa:1"]
-CELLS_SMALL = ["http://x/1", "A1:2", "zz:1", "", 'a:"q"', "a:1\r2", "\ufeffa:1"]   # the last starts with a byte-order mark
+CELLS = ["http://x/1", "http://y/2", "a:1", "A1:2", "http://q/1", "zz:1", "nodelim", "", "http://x/\t1", 'a:"q"', "http://x/1\n2", "a:1\r2", "\ufeffa:1", "a:q/7", "http://x/C_1"]
+CELLS_SMALL = ["http://x/1", "A1:2", "zz:1", "", 'a:"q"', "a:1\r2", "\ufeffa:1", "a:q/7"]   # the last starts with a byte-order mark
 OTHER = ["k", "has\ttab", 'q"uote', "line\nbreak", "cr\rx", "", "com,ma"]
 SHORT = "<short-row>"   # a row with a single cell
 BLANK = "<blank-row>"   # an empty line
@@ -167,6 +169,7 @@ def check_file(conv_idx, op, table, column, header, sep, strict, passthrough, am
 
 PD_OPS = ["pd_compress", "pd_expand", "pd_standardize_prefix", "pd_standardize_curie", "pd_standardize_uri"]
 PD_CELLS = CELLS + ["a", "A1", "zz"]
+PD_SMALL = ["http://x/1", "A1:2", "zz:1", "", "a:q/7", "http://x/C_1", "a"]
 
 
 def check_pd(conv_idx, op, cells, column_pos, labelled, target, strict, passthrough, ambiguous, index_kind="range", ctx=None):
@@ -279,7 +282,7 @@ def file_cases(table):
 
 def pd_cases(tier):
     maxr = 2 if tier == "quick" else 3
-    tabs = [list(t) for r in range(0, maxr + 1) for t in it.product(PD_CELLS if r < 2 else CELLS_SMALL + ["a"], repeat=r)]
+    tabs = [list(t) for r in range(0, maxr + 1) for t in it.product(PD_CELLS if r < 2 else PD_SMALL, repeat=r)]
     for cells in tabs:
         for op in PD_OPS:
             for column_pos in (0, 1):
